@@ -38,7 +38,7 @@ def run_shard(shard, ctx):
     tier, seed = shard["tier"], shard["seed"]
     kind, D, R = shard["kind"], shard["D"], shard["R"]
     diag = "Diag" in kind
-    vis = [0, 100] if tier == "quick" else [0, 1, 100, 101]
+    vis = [0, 100, objs.HARD] if tier == "quick" else [0, 1, 100, 101, objs.HARD]
     lists = al.all_index_lists(D, proper=True)
     if D >= 5:
         lists = [l for l in lists if len(l) <= 2 or len(l) == D - 1][:120]
@@ -89,9 +89,9 @@ def cond_on(ctx, shard, tier, p, kind, D, R, N, vi, mu, Sig, lists, prep):
                     ctx.sample(dict(shard=shard["id"], op=op, dim_y=b, dim_x=a, Sigma=Sig, mu=mu, x=x))
                 with ctx.guard(op + ".call", facts) as g:
                     if op == "condition_on":
-                        c = p.condition_on(jnp.array(b))
+                        c = p.condition_on(objs.idx(b, len(b) + sum(b)))
                     else:
-                        c = p.condition_on_explicit(jnp.array(b), jnp.array(a))
+                        c = p.condition_on_explicit(objs.idx(b, sum(b)), objs.idx(a, sum(a) + 1))
                     cx = c.condition_on_x(J(x[:, b]))
                     lp = np.asarray(cx.evaluate_ln(J(x[:, a])))  # [R*N, N]
                 if not g.ok:
